@@ -204,7 +204,7 @@ PROPS = {
         ],
     },
     'C14': {
-        'v_units': ['fifo'],
+        'v_units': ['fifo', 'rwall'],
         'k_units': [],
         'level': 'other',
         'explanation': (
@@ -225,9 +225,16 @@ PROPS = {
             'when nothing was transferred), given an ASSUMED contract for one poll_write step on the description. '
             'NOT decided: everything the property says about interleavings of writer and reader (wake-ups, the select loop, the '
             'rw_all loops of yash-env/src/system/concurrency), the rest of OpenFileDescription (RefCell borrows), regular files, command '
-            'substitution and its trailing-newline removal, here-documents. A change there is not seen by this check.'),
+            'substitution and its trailing-newline removal, here-documents. A change there is not seen by this check.'
+            ' Unit rwall (Verus): the loops over partial transfers of yash-env/src/system/concurrency/rw_all.rs. write_all: whatever '
+            'the sizes of the partial writes and however often the descriptor was not ready, success means the system has accepted '
+            'exactly the data, once, in order (on an error: a beginning of it), other descriptors untouched. read_all_to: what was in the '
+            'buffer stays, what the system handed out is exactly what was appended (success or failure: nothing lost, nothing twice), '
+            'success implies that a read reported the end of input on a non-empty buffer slice (the reserve arithmetic guarantees room). '
+            'The system side (Read / Write) is an assumed synchronous model; await points are dropped.'),
         'trusted_base': ['Verus 0.2026.09.13 + Z3', 'vstd models of VecDeque::pop_front/len and of slice::iter_mut', '/verif/tools/vextract.py'],
         'assumptions': [
+            'unit rwall: model traits Read / Write (synchronous, &mut self, ghost streams written / consumed / at_eof per descriptor); Concurrent<S> reduced to the wrapped system; TemporaryNonBlockingGuard replaced by a move of the reference (descriptor flags are not modelled); yield_for_read / yield_for_write assumed not to change what this task transferred; EAGAIN = EWOULDBLOCK = 11; assumed contracts of Vec::capacity / reserve / extend(repeat_n) and of reading into the tail of a Vec',
             'assumed specs: VecDeque::extend / reserve_exact / is_empty, Vec::extend / resize_with; a shared slice yields its elements in order',
             '`for to in buffer` over `&mut [u8]` is checked as `buffer.iter_mut()` (std definition of IntoIterator for &mut [T]; rewrite rule tokens-to-helper)',
             'core::task::Poll, WakerSet, Weak, Cell, Waker, Inode, UnixStr, PathBuf, RefCell are same-named placeholders (only stored here); WakerSet is modelled as a set of waker identities with assumed contracts for insert (adds), wake_all (wakes and empties), is_empty and len; WHEN a woken task runs is not decided',
